@@ -112,7 +112,15 @@ def emits_only_to_admins(c, notes):
     return z3.And(*parts) if parts else z3.BoolVal(True)
 
 
-def wrapper_contract(world, target, orig_path, params, pos_names, kw_names=(), loop=False, app_ns_param=None):
+EXTRA_KW = ('to', 'ignore_queue')      # what Server.emit / the pub/sub managers pass on through **kwargs: two representative names
+
+
+def extra_kwargs(eng, ctx, name):
+    """**kwargs of a wrapper: arbitrary values under the keyword names the callers use (the wrapper must hand them all on)"""
+    return ctx.alloc('map', {smt.atom(k): S(z3.Const('p_kw_' + k, V)) for k in EXTRA_KW})
+
+
+def wrapper_contract(world, target, orig_path, params, pos_names, kw_names=(), loop=False, app_ns_param=None, extra_kw=()):
     def post(c):
         notes = c.ctx.notes
         origs = [n for n in notes if n[0] == 'api' and n[1] == orig_path]
@@ -131,6 +139,10 @@ def wrapper_contract(world, target, orig_path, params, pos_names, kw_names=(), l
             d['with-the-same-positional-arguments'] = c.eng.seq_eq(c.ctx, args, expected)
             for k in kw_names:
                 d['with-the-same-%s' % k] = (c.eng.to_v(c.ctx, kw[k]) == c.eng.to_v(c.ctx, c.vals[k])) if k in kw else z3.BoolVal(False)
+            for k in extra_kw:
+                d['hands-on-the-extra-keyword-argument-%s' % k] = (c.eng.to_v(c.ctx, kw[k]) == z3.Const('p_kw_' + k, V)) if k in kw else z3.BoolVal(False)
+            if extra_kw or kw_names:
+                d['and-no-keyword-argument-of-its-own'] = z3.BoolVal(set(kw) <= set(kw_names) | set(extra_kw))
             d['and-returns-its-result'] = c.res_v() == c.eng.to_v(c.ctx, r)
         d['everything-else-goes-to-the-admin-namespace-only'] = emits_only_to_admins(c, notes)
         others = [n for n in notes if n[0] == 'api' and n[1] not in (orig_path, 'sio.emit') and not n[1].startswith(ALLOWED_PREFIXES)
@@ -167,8 +179,8 @@ def register(reg):
         reg.add(wrapper_contract(w, t + '_basic_leave_room', 'sio.manager.__basic_leave_room', {'sid': 'V', 'namespace': 'V', 'room': 'V'},
                                  ['sid', 'namespace', 'room']))
         reg.add(wrapper_contract(w, t + '_emit', 'sio.manager.__emit', {'event': 'V', 'data': 'V', 'namespace': 'V', 'room': 'V', 'skip_sid': 'V', 'callback': 'V',
-                                                                       'kwargs': lambda eng, ctx, name: ctx.alloc('map', {})},
-                                 ['event', 'data', 'namespace'], kw_names=['room', 'skip_sid', 'callback'], loop=True))
+                                                                       'kwargs': extra_kwargs},
+                                 ['event', 'data', 'namespace'], kw_names=['room', 'skip_sid', 'callback'], loop=True, extra_kw=EXTRA_KW))
 
 
 _reg_w2 = register
